@@ -72,12 +72,13 @@ type Collector struct {
 	class  map[int]string
 	req    map[int][]byte
 	hist   map[int][][]byte // what the same executor had run before (for history-aware reproduction)
+	fam    map[int]string   // the family whose executor produced the trace (one collector may serve several)
 	next   int
 }
 
 // NewCollector returns an empty collector.
 func NewCollector() *Collector {
-	return &Collector{events: map[int][]json.RawMessage{}, class: map[int]string{}, req: map[int][]byte{}, hist: map[int][][]byte{}}
+	return &Collector{events: map[int][]json.RawMessage{}, class: map[int]string{}, req: map[int][]byte{}, hist: map[int][][]byte{}, fam: map[int]string{}}
 }
 
 // Len is the number of traces collected.
@@ -158,6 +159,7 @@ func (r *Run) handle(f *Family, res Result, col *Collector) {
 			col.events[tid] = append([]json.RawMessage{reset}, v.Events...)
 		}
 		col.class[tid] = v.Class
+		col.fam[tid] = f.Name
 		col.req[tid] = res.Req
 		col.hist[tid] = res.Hist
 	}
@@ -299,9 +301,14 @@ func (r *Run) ValidateTrace(fam string, col *Collector, o TLCOpts) {
 				cm["recorded_events"] = col.events[tid]
 			}
 			cj, _ := json.Marshal(cm)
-			r.Fail(Candidate{Family: fam, Class: col.class[tid], Sig: "trace-reject" + rejSuffix(lines, l) + rejReason(v),
-				Case:   cj,
-				Hist:   col.hist[tid],
+			cfam := fam
+			if col.fam[tid] != "" {
+				cfam = col.fam[tid]
+			}
+			r.Fail(Candidate{Family: cfam, Class: col.class[tid], Sig: "trace-reject" + rejSuffix(lines, l) + rejReason(v),
+				Case:        cj,
+				Hist:        col.hist[tid],
+				TraceModule: o.Module, TraceCfg: o.Cfg,
 				Detail: fmt.Sprintf("the trace specification has no step for event %d of trace %d%s: %s", l, tid, why, det)})
 		}
 	}
@@ -392,14 +399,53 @@ func Reproduce(c Candidate) (bool, string) {
 	}
 	if tr.Events != "" {
 		all := v.Events
-		if len(req) > 0 && req[0] == 'A' { // the harness-inserted reset line is not part of the fingerprint
-			h := sha1.Sum(mustJSON(all))
-			return fmt.Sprintf("%x", h[:8]) == tr.Events, "regenerated trace differs"
-		}
 		h := sha1.Sum(mustJSON(all))
-		return fmt.Sprintf("%x", h[:8]) == tr.Events, "regenerated trace differs"
+		if fmt.Sprintf("%x", h[:8]) == tr.Events {
+			return true, "the same trace again"
+		}
+		// not the same events (the library's behaviour varies between runs): what counts is whether the
+		// specification rejects this execution too
+		if c.TraceModule != "" && revalidate(all, c.TraceModule, c.TraceCfg) {
+			return true, "another execution of the same request, rejected by the trace specification as well"
+		}
+		return false, "regenerated trace differs"
 	}
 	return !v.OK && !v.Out, v.Detail
+}
+
+// revalidate lets the trace specification judge one regenerated trace.
+func revalidate(events []json.RawMessage, module, cfg string) bool {
+	if len(events) == 0 {
+		return false
+	}
+	dir, err := os.MkdirTemp(filepath.Join(Root, "out"), "reval")
+	if err != nil {
+		return false
+	}
+	defer os.RemoveAll(dir)
+	path := filepath.Join(dir, "trace.ndjson")
+	var sb strings.Builder
+	var first struct{ Ev string }
+	json.Unmarshal(events[0], &first)
+	if first.Ev != "reset" {
+		sb.WriteString(`{"ev":"reset","tid":1}` + "\n")
+	}
+	for _, e := range events {
+		sb.Write(e)
+		sb.WriteByte('\n')
+	}
+	if os.WriteFile(path, []byte(sb.String()), 0o644) != nil {
+		return false
+	}
+	rejected := false
+	o := TLCOpts{Module: module, Cfg: cfg, Workers: 1, Env: map[string]string{"TRACE": path}, HeapGB: 4,
+		OnLine: func(line string) {
+			if _, ok := TupleInts(line, "REJECT"); ok {
+				rejected = true
+			}
+		}}
+	res, err := RunTLC(SpecsDir, filepath.Join(dir, "tlc"), o)
+	return err == nil && res != nil && !res.TimedOut && rejected
 }
 
 // Checks maps a property id to the function that decides it.
